@@ -161,6 +161,22 @@ def check(an, rep, tier):
                             'differentiation matrix is homogeneous of degree '
                             '%s in the box length, expected %s' % (k + 1, deg,
                                                                    want))
+    # the integral over a box of side L in every dimension is homogeneous of
+    # degree d in L (scalar bounds included)
+    for r in runs:
+        if r.qualname in ('func.func_sum', 'func_full.func_sum_full') and \
+                r.variant.get('a') == 'len:L':
+            rv = r.result
+            deg = (rv.deg or {}).get('L') if rv.k == 'float' and \
+                rv.deg is not None else None
+            rep.add('U-deg', r.qualname, 'integral scales with the box '
+                    'length to the power d = %d' % r.d,
+                    'ok' if deg == r.d else
+                    ('violation' if deg is not None else 'unknown'),
+                    '' if deg == r.d else 'the integral is homogeneous of '
+                    'degree %s in the box length, expected %d (every '
+                    'dimension contributes one factor (b - a) / 2)'
+                    % (deg, r.d))
     from .. import interp as _interp
     from ..values import INT as _INT
     import re as _re
@@ -229,7 +245,7 @@ def check(an, rep, tier):
                 if f.module.name in ('func', 'func_full')}
     _RP.check_param_forwarding(prog, rep, callers=_callers)
     rep.floor('S-dense', 4, 'dense result axes')
-    rep.floor('U-deg', 3, 'differentiation matrix scaling')
+    rep.floor('U-deg', 7, 'differentiation matrix and integral scaling')
     rep.floor('X1-bind', 60, 'external calls bound')
     rep.floor('S-einsum', 3, 'coefficient contractions')
     rep.floor('S-ret', 8, 'TT results')
